@@ -76,6 +76,11 @@ CLAIMED = {
              "Tie: translator facts on all four token sites, the relay and the set_parent/add_child pair; real sessions (chains, fan-out, moves, consecutive re-parents, hierarchies created in the marking frame) projected per child onto the slice (parent uuid and token after every frame); oracle (same parent on all peers, children lists consistent and duplicate-free, traffic stops).",
         note="Trusted: as for C02; bevy_hierarchy's push_children/update_old_parents are modelled from their 0.14 source, tied by the oracle's children-list checks only; conflicting simultaneous re-parents by different peers are outside the property.",
         technique="Lean 4 proof (component-slice invariants generalised over the relay mode; hierarchy well-formedness) + per-child trace correspondence + oracle", ref="§7 C05"),
+    "C06": dict(
+        text="Machine-checked proof on two slices — announcement + HTTP download (mesh, image, audio: react = debounce/serve/announce, poll = queue a download from the advertised owner and relay, fetch = GET returning what the owner's cache holds at that moment, process = apply + one debounce entry + one AssetEvent) and inline materials (react, poll, deferred apply + relay): over any sequence of writer epochs (host->clients, client->host->clients, the writer changing between epochs once drained, any number of overwrites per epoch in any rhythm), any number of clients and every schedule of reactions, deliveries, downloads and applications, every peer ends with the content of the last publication under the uuid and nothing (debounce entry, slot, download) is left over; readers never announce (no echo). The three repaired defects are refuted on the pre-repair models by kernel-checked witnesses. Identity of the bytes across encode / HTTP / decode is C11, C12, C13, C14. "
+             "Tie: eight translator facts (counted debounce entries and their two sites, request() queues unconditionally, worker stores into the uuid's slot, process_* shape, the six react_* functions, both receivers and the host relay, the inline material path, serve_* overwrites); real sessions over localhost HTTP with all four kinds, bursts of overwrites, cross-peer overwrites after drains, 1..3 clients, IPv4/IPv6: per uuid the publications are replayed on the model, the model settles by fair rounds wherever the implementation drained and content / serve cache / pending debounce entries of every peer are compared; oracle: at every quiescent drain every peer holds byte-identical content (hash of the encoded asset) to the last publisher's.",
+        note="Trusted: Lean kernel + standard axioms; a GET and the store into the slot are one model action — two worker threads finishing downloads of one uuid in the opposite order of their requests (runtime behaviour of the thread pool) are outside the model and recorded in DESIGN.md; the correspondence compares at quiescent drains only (the download thread makes per-frame prediction impossible); two peers publishing the same uuid concurrently are outside the property's single-writer reading.",
+        technique="Lean 4 proof (single-writer epoch invariants for both transport paths, any N, all schedules) + per-uuid drain-point correspondence over real HTTP + oracle", ref="§7 C06"),
     "C15": dict(
         text="Machine-checked proof on the connection-state machines (run conditions resource_added / resource_removed with their change-detection flag and Local, in_state, NextState applied one frame later): from every state reachable by any sequence of start/stop hosting, connect, disconnect, reconnect, handshake events and frames, ServerState agrees with hosting after two undisturbed frames; ClientState requests Connected only in a frame in which the RenetClient reported connected and becomes Connected only through such a request; it is Disconnected two frames after the transport was removed from any state (Connecting included); the host raises InitialSyncFinished exactly with its transition to Connected and not again; one RequestInitialSync per join. The pre-repair condition (D10) is refuted by a kernel-checked witness. "
              "Tie: six translator facts (run conditions of the five state systems, gates of the three replication chains, the is_connected check, the three sync-finished sites); every peer of real connect/disconnect/reconnect histories with arbitrarily interleaved frames replayed on the model (published states after every frame); oracle: two-frame tracking, never-early, replication only in Connected, at most one InitialSyncFinished per join and exactly one for a completed join, and at that frame every entity and registered component of the host's snapshot is present on the client.",
